@@ -9,9 +9,11 @@ and each of the two write batches is atomic, which is coarser than single deleti
 statement quantified over `Steps s t` covers every crash point.
 
 What the code as written does NOT satisfy is kept as witnesses (`part_accessors_change_when_frozen`,
-`get_block_by_hash_returns_other_block`, `freeze_panics_on_stale_epoch_row`).
+`get_block_by_hash_returns_other_block`); `freeze_panics_on_stale_epoch_row_prefix` is the regression
+witness of the F9 consequence that /repo commit e69f9a7 repaired.
 -/
 import CkbVerif.Lemmas.Freeze
+import CkbVerif.Lemmas.FreezeStart
 namespace CkbVerif.C10
 open CkbVerif.Store CkbVerif.Freeze
 
@@ -62,6 +64,34 @@ theorem steps_keep_view {s t : FS} (st : Steps s t) : t.v = s.v := by
   induction st with
   | refl => rfl
   | tail _ st ih => cases st <;> exact ih
+
+/-! ### C10.1b — the invariant is not an assumption for chains of the C02 model -/
+
+/-- `n` passes in a row (new blocks may not arrive in between in this statement) -/
+def passes : Nat → FS → FS
+  | 0, s => s
+  | n + 1, s => passes n (freeze s).1
+
+theorem passes_steps (n : Nat) (s : FS) (h : Inv s) : Steps s (passes n s) := by
+  induction n generalizing s with
+  | zero => exact Steps.refl s
+  | succ n ih =>
+    have h1 := freeze_is_steps s h
+    exact Steps.trans h1 (ih _ (inv_steps h h1))
+
+/-- For the replay of ANY well-formed chain (`Valid` genesis, `ValidChain` rest — the C02
+well-formedness), started with nothing frozen and every row present, any number of freezer passes
+leaves `get_block` / `get_block_header` of every main-chain block unchanged: the invariant `Inv` is
+derived (`inv_start`, `storeOk_attachAll`), not assumed. -/
+theorem freeze_invisible_on_replayed_chain (g : Block) (rest : List Block) (stored : List Nat)
+    (hg : Valid Main.empty Recs.empty g) (hc : ValidChain (init g) rest) (n : Nat)
+    (id : Nat) (blk : Block) (hm : OnMain (startState (replay (g :: rest)) stored) id blk) :
+    let s := startState (replay (g :: rest)) stored
+    Inv s ∧ getBlock (passes n s) id = getBlock s id ∧ getBlock (passes n s) id = .some blk ∧
+      getHeader (passes n s) id = getHeader s id := by
+  intro s
+  have hinv : Inv s := inv_start _ _ (storeOk_attachAll (storeOk_init g hg) hc)
+  exact ⟨hinv, queries_invariant_under_freeze_partial s _ hinv (passes_steps n s hinv) id blk hm⟩
 
 /-! ### C10.2 — crash safety -/
 
@@ -118,12 +148,12 @@ theorem only_old_blocks_move (s : FS) (thr : Nat) (ht : threshold s = .at thr) :
       new.length ≤ MAX_FREEZE_LIMIT ∧
       (∀ k b, new[k]? = some b → getUnfrozen s (frozenNumber s + k) = some b) ∧
       ∃ ce idx e ln, s.v.m.curEpoch = some ce ∧ THRESHOLD_EPOCH < ce.number ∧
-        s.v.r.epochNum (ce.number + 1 - THRESHOLD_EPOCH) = some idx ∧ s.v.r.epochExt idx = some e ∧
+        s.v.m.epochNum (ce.number + 1 - THRESHOLD_EPOCH) = some idx ∧ s.v.r.epochExt idx = some e ∧
         s.v.m.rindex e.key = some ln ∧ thr ≤ ln := by
   obtain ⟨new, h1, h2, h3⟩ := freezeLoop_spec (getUnfrozen s) thr (thr + 1) (frozenNumber s) s.frozen
   have hthr : thr ≤ frozenNumber s + MAX_FREEZE_LIMIT ∧
       ∃ ce idx e ln, s.v.m.curEpoch = some ce ∧ THRESHOLD_EPOCH < ce.number ∧
-        s.v.r.epochNum (ce.number + 1 - THRESHOLD_EPOCH) = some idx ∧ s.v.r.epochExt idx = some e ∧
+        s.v.m.epochNum (ce.number + 1 - THRESHOLD_EPOCH) = some idx ∧ s.v.r.epochExt idx = some e ∧
         s.v.m.rindex e.key = some ln ∧ thr ≤ ln := by
     unfold threshold at ht
     cases hce : s.v.m.curEpoch with
@@ -134,7 +164,7 @@ theorem only_old_blocks_move (s : FS) (thr : Nat) (ht : threshold s = .at thr) :
       by_cases hle : ce.number ≤ THRESHOLD_EPOCH
       · simp [hle] at ht
       · simp only [hle, if_false] at ht
-        cases hidx : s.v.r.epochNum (ce.number + 1 - THRESHOLD_EPOCH) with
+        cases hidx : s.v.m.epochNum (ce.number + 1 - THRESHOLD_EPOCH) with
         | none => rw [hidx] at ht; cases ht
         | some idx =>
           rw [hidx] at ht
@@ -184,6 +214,11 @@ def s2 := mk 21 11 2
 def s3 := mk 31 21 3
 def chainF9 : View :=
   process (process (process (process (process (process (process (init g) b1) s1) b2) s2) b3) s3) b4
+/-- the same history with the number-row behaviour before the repair of F9 -/
+def chainF9Pre : View :=
+  PreFix.process (PreFix.process (PreFix.process (PreFix.process (PreFix.process (PreFix.process
+    (PreFix.process (init g) b1) s1) b2) s2) b3) s3) b4
+def sF9Pre : FS := { s0 with v := chainF9Pre, stored := [0, 1, 11, 2, 21, 3, 31, 4] }
 def sF9 : FS := { s0 with v := chainF9, stored := [0, 1, 11, 2, 21, 3, 31, 4] }
 end Witness
 
@@ -208,11 +243,26 @@ theorem get_block_by_hash_returns_other_block :
   decide
 
 open Witness in
-/-- with the stale epoch-number row of finding F9 the threshold computation hits
-`get_block_number(..).expect(..)`: the pass panics. -/
-theorem freeze_panics_on_stale_epoch_row :
-    threshold sF9 = .panic ∧ (freeze sF9).2 = .panic ∧ threshold s0 = .at 2 := by
+/-- **before the repair of F9 (regression witness about `Store.PreFix`)**: with the stale
+epoch-number row the threshold computation hit `get_block_number(..).expect(..)` and the pass
+panicked; with the repaired row maintenance the same history freezes normally. -/
+theorem freeze_panics_on_stale_epoch_row_prefix :
+    threshold sF9Pre = .panic ∧ (freeze sF9Pre).2 = .panic ∧
+    threshold sF9 = .at 2 ∧ (freeze sF9).2 = .ok ∧ threshold s0 = .at 2 := by
   decide
+
+/-! ### the repair proposed for F17 (`/verif/work/C10-fix-F17.diff`, model `getBlockF17`) -/
+
+/-- with the hash comparison in place `get_block(hash)` can only answer with the block asked for … -/
+theorem get_block_repaired_never_returns_other_block (s : FS)
+    (hid : ∀ id blk, s.v.r.bodies id = some blk → blk.id = id) (id : Nat) (b : Block)
+    (h : getBlockF17 s id = .some b) : b.id = id :=
+  getBlockF17_sound s hid id b h
+
+/-- … and nothing changes for main-chain blocks, frozen or not -/
+theorem get_block_repaired_same_on_main (s : FS) (h : Inv s) (id : Nat) (blk : Block) (hm : OnMain s id blk) :
+    getBlockF17 s id = getBlock s id := by
+  rw [getBlockF17_main s h id blk hm, getBlock_main s h id blk hm]
 
 /-! ### non-vacuity: the invariant holds on the witness chain, and the pass is made of steps -/
 
@@ -220,7 +270,8 @@ open Witness in
 example : getUnfrozen s0 (frozenNumber s0) = some b1 ∧
     afterPass.frozen = (appendOne s0 b1).frozen ∧
     chain.m.index 1 = some 1 ∧ chain.r.bodies 1 = some b1 ∧ chain.m.tip = some 4 ∧
-    chainF9.m.tip = some 4 ∧ chainF9.r.epochNum 3 = some 21 ∧ chain.r.epochNum 3 = some 2 := by
+    chainF9.m.tip = some 4 ∧ chainF9Pre.m.epochNum 3 = some 21 ∧ chainF9.m.epochNum 3 = some 2 ∧
+    chain.m.epochNum 3 = some 2 := by
   decide
 
 /-- a state with block 1 frozen and wiped, blocks 0 and 2 in the kv store -/
